@@ -64,8 +64,9 @@ type Unit struct {
 	retCount int
 	parent   *Unit
 	inputs   map[string]Term
-	writeLog map[string][]Term
-	logging  bool
+	writeLog  map[string][]Term
+	logging   bool
+	allocSyms map[Term]bool
 }
 
 func (u *Unit) logWrite(heap string, idx Term) {
@@ -182,6 +183,13 @@ func (u *Unit) cover(st *State, label string, pos token.Pos) {
 		root = root.parent
 	}
 	name := fmt.Sprintf("%s#cover:%s", root.name, label)
+	if root.kindSeq == nil {
+		root.kindSeq = map[string]int{}
+	}
+	root.kindSeq["cover#"+name]++
+	if root.kindSeq["cover#"+name] > 3 {
+		return // aggregated "any instance reachable": a few instances suffice
+	}
 	o := &Obligation{Name: name, Kind: "cover", Func: root.name, Goal: "false", PC: st.pc[:len(st.pc):len(st.pc)], Where: u.where(pos), Trace: st.trace, Expect: "sat"}
 	root.obls = append(root.obls, o)
 }
@@ -349,9 +357,32 @@ func (u *Unit) setElemArray(st *State, elem types.Type, arr Term, content Term) 
 	u.setHeap(st, name, sort, tStore(h, arr, content))
 }
 
+// isOld: reference r denotes an object that existed when the allocation frontier was F
+// (embedded sub-objects are negative and inherit the age of their owner).
+func isOld(r, F Term) Term {
+	return fmt.Sprintf("(or (and (<= 0 %s) (< %s %s)) (and (< %s 0) (<= 0 (owner %s)) (< (owner %s) %s)))", r, r, F, r, r, r, F)
+}
+
+// rootOfSub strips (sub$... X) wrappers.
+func rootOfSub(t Term) Term {
+	for strings.HasPrefix(t, "(sub$") && strings.HasSuffix(t, ")") {
+		i := strings.Index(t, " ")
+		if i < 0 {
+			break
+		}
+		t = t[i+1 : len(t)-1]
+	}
+	return t
+}
+
 // alloc returns a fresh reference.
 func (u *Unit) alloc(st *State, prefix string) Term {
 	r := u.fresh(prefix, SInt)
+	if rt := u.root(); rt.allocSyms == nil {
+		rt.allocSyms = map[Term]bool{r: true}
+	} else {
+		rt.allocSyms[r] = true
+	}
 	st.assume(tAnd(tEq(r, st.frontier), tLt("0", r)))
 	nf := u.fresh("frontier", SInt)
 	st.assume(tEq(nf, tAdd(st.frontier, "1")))
@@ -400,6 +431,7 @@ func baseDecls() *Decls {
 	d.declFun("sconcat", []string{SStr, SStr}, SStr)
 	d.declFun("ssub", []string{SStr, SInt, SInt}, SStr)
 	d.declFun("dyntype", []string{SInt}, SInt)
+	d.declFun("owner", []string{SInt}, SInt)
 	return d
 }
 
